@@ -19,6 +19,7 @@ EXPLANATION = (
     ' (OPERAND-PAIR) a binary-operator constraint is stored on both operand nodes, so refining either one re-checks it; (FIELD-SETS) unifying two blob types compares their field sets in both directions.'
     ' (ASSIGNABILITY) an index assignment is only accepted if the runtime can perform it for some type the checker admits there;'
     ' (DEFER-RECORDED, RET-FOLD, RET-ORIGIN, BINDER-TYPED, TYPE-NAME) as in C03; (VALUE-PATH) a missing branch value / a body that falls off its end / a quotient whose dividend is refined later are not silently compatible with everything (four known findings).'
+    " (COPY environment) instantiating a generalised function's type leaves everything reachable from the variables that have one type at that point (parameters, locals and case variables of the functions being checked, non-function definitions) shared; parameters enter that set before the body is checked, non-generalised definitions when they are defined."
 )
 UNDECIDED = ("soundness of unification with deferred constraints as a theorem; run-time behaviour of `external` code; "
              "nothing else about the runtime library.")
